@@ -123,12 +123,13 @@ def padding(index: RepoIndex, rep, rule: str, sub: Subgrid) -> None:
         rep.violation(rule, G, 'Grid.subgrid', fl, src(sub.inside_val),
                       'cells are read without any in-grid test: no Hidden padding')
         return
-    rep.check(sub.pad_val is not None and src(sub.pad_val) == 'Hidden()', rule, G,
+    badpad = [src(p) for p in sub.pad_vals if src(p) != 'Hidden()']
+    rep.check(sub.pad_val is not None and not badpad, rule, G,
               'Grid.subgrid', fl, src(sub.pad_val) if sub.pad_val is not None else '',
-              f'cells outside the grid are padded with `{src(sub.pad_val)}`, not Hidden()',
+              f'cells outside the grid are padded with `{badpad[:1]}`, not Hidden()',
               'pad Hidden')
     # compare the condition with 0 <= row < H and 0 <= col < W at small points
-    test = sub.rows_expr.elt.elt.test
+    test = sub.test
     bad = None
     npts = 0
 
@@ -203,7 +204,7 @@ def masking(index: RepoIndex, rep, rule: str, pipe: Pipeline) -> None:
         val_ok = e.value is not None and src(e.value) == 'Hidden()'
         loop_ok = bool(e.loops) and src(e.loops[-1][0]) == pos and \
             src(e.loops[-1][1]) in (f'{g}.area.positions()', f"{g}.area.positions('all')")
-        conj = strip_iter(e.guard)
+        conj = w.expand_formula(strip_iter(e.guard), stop=[g, pipe.vis_name])
         parts = list(conj[1:]) if conj[0] == 'and' else ([] if conj == ('true',) else [conj])
         vis_parts, other = [], []
         for p in parts:
@@ -218,7 +219,8 @@ def masking(index: RepoIndex, rep, rule: str, pipe: Pipeline) -> None:
             else:
                 other.append(p)
         guard_ok = len(vis_parts) == 1 and vis_parts[0][0] and not other and \
-            src(vis_parts[0][1].slice) in (f'({pos}.y, {pos}.x)', f'{pos}.yx')
+            src(vis_parts[0][1].slice) in (f'({pos}.y, {pos}.x)', f'{pos}.yx',
+                                           f'({pos}.yx[0], {pos}.yx[1])')
         reason = []
         if not val_ok:
             reason.append(f'stores `{src(e.value) if e.value is not None else None}` instead of Hidden()')
